@@ -53,6 +53,7 @@ def dpStep (d : DSt) (ws : List String) : DSt × String :=
     | some h, some t => let d' := { d with st := stepOp c d.st (.unsub h t) }; (d', showSt d' d.st)
     | _, _ => (d, "bad-op")
   | ["dp.write", b] => let d' := { d with st := stepOp c d.st (.setWrite (b == "1")) }; (d', showSt d' d.st)
+  | ["dp.lost"] => let d' := { d with st := stepOp c d.st .lost }; (d', showSt d' d.st)
   | ["dp.tick"] => let d' := { d with st := stepOp c d.st .tick }; (d', showSt d' d.st)
   | "dp.packet" :: id :: ok :: order =>
     match id.toNat?, order.mapM (·.toNat?) with
